@@ -1266,3 +1266,13 @@ M('gen-init-keeps-flags', 'C05', 'init-restores-the-initial-accessor-state',
   [('GenEigsBase.h', "        m_ritz_conv.setZero();\n", "")], 'flags of the earlier compute() survive init(): accessors return nev zeros')
 M('herm-init-status-successful', 'C05', 'flag-writers',
   [('HermEigsBase.h', "        m_niter = 0;\n        m_info = CompInfo::NotComputed;\n", "        m_niter = 0;\n        m_info = CompInfo::Successful;\n")], 'init may only reset the status')
+# ----------------------------------------------------------------------------- orientation of the sesquilinear form (session 4, seed C01m)
+M('arnoldi-init-projection-coefficient-conjugated', 'C07,C01', 'inner-product-conjugates-the-basis-vector',
+  [('LinAlg/Arnoldi.h', "const Scalar vf = m_op.inner_product(v, m_fac_f);", "const Scalar vf = m_op.inner_product(m_fac_f, v);")], 'conj of the component: exact for real scalars')
+N('lanczos-diagonal-entry-conjugated', 'C07',
+  [('LinAlg/Lanczos.h', "m_fac_H(i, i) = m_op.inner_product(v, w);", "m_fac_H(i, i) = m_op.inner_product(w, v);")], '<A v, v>: the conjugate, equal up to an imaginary rounding residue for a Hermitian operator: not demanded')
+# ----------------------------------------------------------------------------- LOBPCG cached products (session 4, seed C17m)
+M('lobpcg-ax-updated-without-the-direction-term', 'C17', 'cached-products-follow-the-iterate',
+  [('contrib/LOBPCGSolver.h', "            AX = AX * sparse_eVecX + ADD;", "            AX = AX * sparse_eVecX + AD;")], 'AX recombined with the previous direction block')
+M('lobpcg-bx-not-rotated-initially', 'C17', 'cached-products-follow-the-iterate',
+  [('contrib/LOBPCGSolver.h', "            BX = BX * sparse_eVecX;\r\n        }", "        }")], 'X and AX rotated by the first Rayleigh-Ritz vectors, BX not')
